@@ -31,6 +31,7 @@ class ExpressionParser {
     ASTNode *parseBitwiseXor();
     ASTNode *parseBitwiseAnd();
     ASTNode *parseComparison();
+    ASTNode *parseRelational();
     ASTNode *parseShift();
     ASTNode *parseAdditive();
     ASTNode *parseMultiplicative();
